@@ -10,6 +10,7 @@ EXPLANATION = (
     "D3 the two maps are insertion-ordered (IndexMap/Vec), existing entries updated in place (get_mut; checksums appended with push), new entries inserted under the line's own name; "
     "D4 line fields are split on bytes (no u8-as-char Unicode predicate); "
     "D5 Line::from_bytes: unknown algorithm / unparsable size / malformed name -> Line::None; Distinfo::from_bytes: Line::None has no effect, Size->update_size, Checksum->update_checksum with the line's own fields; "
+    "D5-WHOLE-LINE the text split into fields is the whole line with only leading blanks skipped; "
     "D5-LINES the lines handed to Line::from_bytes are the pieces of a byte-level split of the input at '\\n' (no UTF-8 line reader, no adapter in between) and the loop ends only by exhaustion")
 NOT_DECIDED = [
     "field splitting semantics for arbitrary interleavings (slice::split is std's)",
@@ -212,6 +213,38 @@ def run(ctx):
             errs = [p for p in ret_paths(paths) if any(c.term[0] == "discr" and is_call(c.term[1], callee) and (c.fact == ("eq", 1) or (c.fact[0] == "ne" and 0 in c.fact[1])) for c in p.conds())]
             ok = bool(errs) and all(agg_variant(p.end[1]) and agg_variant(p.end[1])[1] == "None" for p in errs)
             ctx.check(ok, "D5-DROP", LFB, what, "%s -> Line::None" % what, "a line with %s does not become Line::None" % what, fn_span(body))
+    # D5-WHOLE-LINE: the fields are cut from the whole line (leading blanks skipped, nothing else removed): a line is never truncated
+    #                at some byte before it is split into fields (the bytes of a file name never end the line)
+    lps = ctx.paths(LFB)
+    if lps:
+        lbody = ctx.body(LFB)
+        fsplits = {}
+        for p in lps:
+            for e in p.events:
+                if e.kind == "call" and e.path.endswith(">::split") and "[T]" in e.path and strip_refs(e.args[0]) != ("param", 1):
+                    fsplits[e.bb] = e
+        ctx.floor("D5-WHOLE-LINE", LFB, "field-splitting sites", len(fsplits), 1)
+        for bb, e in sorted(fsplits.items()):
+            x = strip_refs(e.args[0])
+            steps = []
+            for _ in range(8):
+                if is_index_call(x) and agg_variant(call_args(x)[1]) and agg_variant(call_args(x)[1])[1] == "RangeFrom":
+                    steps.append("[start..]")
+                    x = strip_refs(call_args(x)[0])
+                elif is_call(x, "::trim_ascii_start", "::as_ref", "Deref>::deref", "::as_slice") and call_args(x):
+                    steps.append(mir.norm_path(x[1]).rsplit("::", 1)[-1])
+                    x = strip_refs(call_args(x)[0])
+                elif isinstance(x, tuple) and x and x[0] == "deref":
+                    x = strip_refs(x[1])
+                else:
+                    break
+            # what remains is the line itself: an element of the '\n' split of the input (or the input)
+            is_line = x == ("param", 1) or (isinstance(x, tuple) and x[0] == "field" and x[2] == 0 and isinstance(x[1], tuple) and x[1][0] == "downcast" and x[1][2] == "Some"
+                                               and is_call(strip_refs(x[1][1]), "slice::Split<'a, T, P> as std::iter::Iterator>::next", "slice::Split as std::iter::Iterator>::next")
+                                               and mentions(x[1][1], lambda s_: s_ == ("param", 1)))
+            ctx.check(is_line, "D5-WHOLE-LINE", LFB, "fields-from-whole-line", "fields = whole line minus leading blanks (%s)" % (",".join(steps) or "as is"),
+                      "the text split into fields is %s: the line is cut or altered before its fields are taken, so a byte inside a file name can end the line" % term_str(x)[:160],
+                      lbody.span_of(bb))
     paths = ctx.paths(DFB)
     body = ctx.body(DFB)
     if paths:
